@@ -1,10 +1,11 @@
 package rules
 
 import (
-	"go/types"
-	"go/constant"
 	"fmt"
+	"go/constant"
 	"go/token"
+	"go/types"
+	"morlockverif/checker/internal/core"
 	"strings"
 
 	"golang.org/x/tools/go/ssa"
@@ -379,10 +380,10 @@ func runC10(c *Ctx) {
 	}
 
 	// R10-engine
-	if reset := c.P.Func("pkg/engine", "Engine", "Reset"); reset != nil {
-		halt := c.P.Func("pkg/engine", "Engine", "haltSearchIfActive")
-		decode := c.P.Func("pkg/board/fen", "", "Decode")
-		nb := c.P.Func("pkg/board", "", "NewBoard")
+	if reset := c.find("pkg/engine", "Engine", "Reset"); reset != nil {
+		halt := c.find("pkg/engine", "Engine", "haltSearchIfActive")
+		decode := c.find("pkg/board/fen", "", "Decode")
+		nb := c.find("pkg/board", "", "NewBoard")
 		hs, ds, bs := callsTo(reset, halt), callsTo(reset, decode), callsTo(reset, nb)
 		good := len(hs) == 1 && len(ds) == 1 && len(bs) == 1 && instrDominates(hs[0].(ssa.Instruction), bs[0].(ssa.Instruction)) && instrDominates(ds[0].(ssa.Instruction), bs[0].(ssa.Instruction))
 		stored := map[string]bool{}
@@ -398,14 +399,14 @@ func runC10(c *Ctx) {
 			}
 		}
 		for _, fs := range allFieldStores(c.P) {
-			if fs.Fn == reset && fs.Named != nil && fs.Named.Obj().Name() == "Engine" && okRet != nil && instrDominates(fs.Instr, okRet) {
+			if fs.Fn == reset && fs.Named != nil && core.ObjName(fs.Named.Obj()) == "Engine" && okRet != nil && instrDominates(fs.Instr, okRet) {
 				stored[fs.Field] = true // replaced on every successful path
 			}
 		}
 		good = good && stored["b"] && stored["tt"] && stored["noise"]
 		r.Check(good, "R10-engine", "Engine.Reset halts, decodes and replaces board, table and noise", c.pos(reset.Pos()), "", fmt.Sprintf("halt=%d decode=%d newboard=%d stores=%v", len(hs), len(ds), len(bs), stored))
-		if mv := c.P.Func("pkg/engine", "Engine", "Move"); mv != nil {
-			push := c.P.Func("pkg/board", "Board", "PushMove")
+		if mv := c.find("pkg/engine", "Engine", "Move"); mv != nil {
+			push := c.find("pkg/board", "Board", "PushMove")
 			h, p := callsTo(mv, halt), callsTo(mv, push)
 			r.Check(len(h) == 1 && len(p) == 1 && instrDominates(h[0].(ssa.Instruction), p[0].(ssa.Instruction)), "R10-engine", "Engine.Move halts the search before it changes the game", c.pos(mv.Pos()), "", "")
 		}
